@@ -684,6 +684,12 @@ def _make_catalog(structures, fields, metadata, statistic, verbose=False):
             progress_bar + 1
             progress_bar.show_progress()
 
+    if result is None:
+        # No structures at all: an empty catalog with the requested columns
+        names = sorted(list(fields) + ['_idx'])
+        result = Table(names=names,
+                       dtype=[int if x == '_idx' else float for x in names])
+
     result.sort('_idx')
 
     if verbose:
